@@ -13,6 +13,22 @@ CLAIMED = {
          "One known finding (automatic damping freezes the slack mass) is suppressed by a narrow signature.",
     ref="DESIGN.md 4/C01"),
 }
+CLAIMED["C14"] = dict(
+    technique="exhaustive enumeration of presence patterns + Hypothesis-generated option layerings against a reference merge; differential layered-vs-explicit pipeflow",
+    text="Exploration with exhaustive sub-spaces: every option key x every presence pattern over the layers and all 2^8 iter/stage-limit "
+         "patterns are enumerated completely against a three-layer reference merge; random multi-key layerings are generated; the "
+         "observable effect is checked by comparing a layered pipeflow with a fresh run that gets the merged options explicitly "
+         "(bit-equal results, same failure type); documented defaults (docstring) are compared with the defaults in force.",
+    note="Trusted: the reference merge as transcribed from options.rst; numba is installed, its absence is simulated by patching the module flag.",
+    ref="DESIGN.md 4/C14")
+CLAIMED["C19"] = dict(
+    technique="enumeration of the fluid / std-type libraries against an own file parser + Hypothesis-generated queries, user properties, integrals, mixtures, pump curves",
+    text="Exploration with exhaustive sub-spaces: all library fluids x tabulated properties x tabulated points / mid-points / extrapolation, "
+         "all pump and pipe standard types are enumerated against an independent parser of the data files; generated queries (scalar, array, "
+         "Series), user-defined properties of the five classes with algebraic integral laws, mixtures and pump types are checked by law.",
+    note="Trusted: the library data files, numpy.polyfit/polyval. Lists as query type are not claimed (the property quantifies over scalars, arrays, Series). "
+         "Known finding: hydrogen slope vs stored derivative.",
+    ref="DESIGN.md 4/C19")
 NOT_YET = {}
 
 def main():
